@@ -69,7 +69,7 @@ fn main() {
             vec![spec("xml", 60_000, 2_000_000, 400, c_xml::c34_case)]
         }
         "C15" => {
-            run.rule = "2..16 OS threads each building 200..3200 messages (PrimaryHeader::new, method calls, signals) behind a barrier, with the process-wide counter placed by the cfg(zbus_verif) hook far from, straddling, just before and at the 32-bit wrap; some threads interleave builds that fail (body nested too deep); plus a wrap race: 8 persistent threads released together 40 000 (quick) / 2 000 000 (thorough) times with the counter 0..6 draws before the wrap, 5 draws each; oracle: no zero, all distinct, per-thread serials advance; the schedule is the operating system's (16 cores), which the harness cannot own; non-trivial = at least 4 threads whose serial ranges interleave, or a run that crosses the wrap; distinct by hash(threads, count, start, first ranges)".into();
+            run.rule = "2..16 OS threads each building 200..3200 messages (PrimaryHeader::new, method calls, signals) behind a barrier, with the process-wide counter placed by the cfg(zbus_verif) hook far from, straddling, just before and at the 32-bit wrap; some threads interleave builds that fail (body nested too deep); plus a wrap race: 8 persistent threads released together 40 000 (quick) / 600 000 (thorough) times with the counter 0..6 draws before the wrap, 5 draws each; oracle: no zero, all distinct, per-thread serials advance; the schedule is the operating system's (16 cores), which the harness cannot own; non-trivial = at least 4 threads whose serial ranges interleave, or a run that crosses the wrap; distinct by hash(threads, count, start, first ranges)".into();
             run.assumptions.push("thread interleaving is left to the OS scheduler: exploration, not enumeration of schedules".into());
             vec![Spec { threads: 1, ..spec("serials", 500, 30000, 16, c_serial::c15_case) }]
         }
@@ -154,7 +154,7 @@ fn main() {
     }
     match id {
         "C15" => {
-            let rounds = run.pick(40_000u64, 2_000_000u64);
+            let rounds = run.pick(40_000u64, 600_000u64);
             let mut o = vcore::run::Obs::new();
             let r = c_serial::c15_wrap_race(rounds, &mut o);
             run.obs.merge(o);
